@@ -290,7 +290,7 @@ Definition all_problems (cfg : config) : list verdict := problems_aux [] (items 
    S-VLAN only and takes the first one that contains it, whatever its C-VLAN selector ([l2gw_policy_rescan], kept as
    the model of GetPolicyName and for the historical witness). *)
 Definition arange := (str * str * (str * bool))%type.           (* svlan, cvlan, (AAA policy, access-types contains l2gw) *)
-Definition agroup := (str * str * list arange)%type.            (* name, group AAA policy, ranges *)
+Definition agroup := (str * (str * bool) * list arange)%type.   (* name, (group AAA policy, group-level access-types contains l2gw), ranges *)
 Definition aconfig := list agroup.
 
 Definition strip_group (g : agroup) : group :=
@@ -307,8 +307,8 @@ Definition policy_of (a : aconfig) (name : str) (idx : nat) : str :=
   match find_group a name with
   | None => []
   | Some g => match nth_error (snd g) idx with
-              | Some r => pol_or (fst (snd r)) (snd (fst g))
-              | None => snd (fst g)
+              | Some r => pol_or (fst (snd r)) (fst (snd (fst g)))
+              | None => fst (snd (fst g))
               end
   end.
 
@@ -319,44 +319,38 @@ Definition matches_svlan (r : arange) (s : N) : bool :=
 (* SubscriberGroup.GetPolicyName(svlan): FindVLANConfig = first range whose S-VLAN list contains s *)
 Definition rescan_policy (g : agroup) (s : N) : str :=
   match find (fun r => matches_svlan r s) (snd g) with
-  | Some r => pol_or (fst (snd r)) (snd (fst g))
-  | None => snd (fst g)
+  | Some r => pol_or (fst (snd r)) (fst (snd (fst g)))
+  | None => fst (snd (fst g))
   end.
 
-(* access-types are declared per range (pkg/config ValidateSubscriberAccessTypes: group-level access-types only for
-   LNS-only groups).  A pair is wholesale-switched iff THE RANGE it is classified to is an l2gw range
-   (internal/pppoe/lac.go does this for lac: match.VR.HasAccessType). *)
-Definition range_l2gw (a : aconfig) (name : str) (idx : nat) : bool :=
-  match find_group a name with
-  | None => false
-  | Some g => match nth_error (snd g) idx with Some r => snd (snd r) | None => false end
-  end.
-(* SubscriberGroup.HasAccessType(l2gw) with empty group-level access-types: ANY range of the group is an l2gw range *)
-Definition group_l2gw (g : agroup) : bool := existsb (fun r : arange => snd (snd r)) (snd g).
-
-(* does the ipoe component hand a DHCP frame of this pair to l2gw (forwardToL2GW), and does the l2gw trigger act on it *)
+(* which pairs are wholesale-switched.  Both consumers (internal/ipoe forwardToL2GW, internal/l2gw handleTrigger) ask
+   the MATCHED GROUP: SubscriberGroup.HasAccessType(l2gw) = the group-level access-types contain l2gw, or any range of
+   the group does. *)
+Definition group_l2gw (g : agroup) : bool :=
+  snd (snd (fst g)) || existsb (fun r : arange => snd (snd r)) (snd g).
 Definition l2gw_handoff (a : aconfig) (s c : N) : bool :=
-  match lookup (build (strip a)) s c with
-  | Some (n, i) => range_l2gw a n i
-  | None => false
-  end.
-(* /repo HEAD: both sites test match.Group.HasAccessType(l2gw) (variant "defective") *)
-Definition l2gw_handoff_bygroup (a : aconfig) (s c : N) : bool :=
   match lookup (build (strip a)) s c with
   | Some (n, _) => match find_group a n with Some g => group_l2gw g | None => false end
   | None => false
   end.
 
-(* (group name, AAA policy) the l2gw trigger authenticates a pair with: by the matched range, l2gw ranges only *)
+(* for comparison only (not what the code does): the decision taken from the range the pair is classified to *)
+Definition range_l2gw (a : aconfig) (name : str) (idx : nat) : bool :=
+  match find_group a name with
+  | None => false
+  | Some g => match nth_error (snd g) idx with Some r => snd (snd r) | None => false end
+  end.
+Definition l2gw_handoff_byrange (a : aconfig) (s c : N) : bool :=
+  match lookup (build (strip a)) s c with
+  | Some (n, i) => range_l2gw a n i
+  | None => false
+  end.
+
+(* (group name, AAA policy) the l2gw trigger authenticates a pair with: the policy of the matched range (60d937f),
+   for pairs whose group is wholesale-switched *)
 Definition l2gw_policy (a : aconfig) (s c : N) : option (str * str) :=
   match lookup (build (strip a)) s c with
-  | Some (n, i) => if range_l2gw a n i then Some (n, policy_of a n i) else None
-  | None => None
-  end.
-(* /repo HEAD's trigger: policy of the matched range (60d937f), acts when any range of the group is l2gw *)
-Definition l2gw_policy_bygroup (a : aconfig) (s c : N) : option (str * str) :=
-  match lookup (build (strip a)) s c with
-  | Some (n, i) => if l2gw_handoff_bygroup a s c then Some (n, policy_of a n i) else None
+  | Some (n, i) => if l2gw_handoff a s c then Some (n, policy_of a n i) else None
   | None => None
   end.
 
